@@ -25,7 +25,7 @@ def nontrivial(f):
 
 
 def run(sh):
-    n = 320 if sh.tier == 'quick' else 6400
+    n = 320 if sh.tier == 'quick' else 60000
     engine_line.run_profile(sh, 'C02', 'general', n // 2, MONITORS, nontrivial)
     engine_line.run_profile(sh, 'C02', 'faults', n // 4, MONITORS, nontrivial)
     engine_line.run_profile(sh, 'C02', 'routing', n // 4, MONITORS, nontrivial)
